@@ -222,8 +222,10 @@ def rule_dispatch(col, configs):
             got = decimal_backends(f, interesting)
             if not got:
                 # dispatch extracted into a helper of the same crate: read the unique callee that holds the back-ends
+                all_backends = tuple(x for _fn, its in specs for x in its)
                 hs = {h.short: h for _b, c, _a, _d, _t in f.calls() for h in facts.by_short.get(callee_name(c), [])
-                      if h.crate == f.crate and h.short != f.short and any(callee_name(c2).endswith(interesting) for _b2, c2, _a2, _d2, _t2 in h.calls())}
+                      if h.crate == f.crate and h.short != f.short and not h.impl_trait and not callee_name(c).endswith(all_backends)   # a private free helper, never another back-end
+                      and any(callee_name(c2).endswith(interesting) for _b2, c2, _a2, _d2, _t2 in h.calls())}
                 if len(hs) == 1:
                     got = decimal_backends(list(hs.values())[0], interesting)
             family = "compact" if n.startswith("compact") else "default"
